@@ -521,6 +521,9 @@ func (c *ExecCtx) checkFrame(st *State, env *SpecEnv, pos token.Pos) {
 		if h == "$alloc" || strings.HasPrefix(h, "C.") || allowedAll[h] {
 			continue
 		}
+		if strings.HasPrefix(h, "G.") && !strings.HasPrefix(h, "G."+sanitize(modulePath)) {
+			continue // package-level variables of dependencies are not repository state
+		}
 		// objects allocated during the call may be written freely
 		expected := init
 		for _, r := range allowed[h] {
